@@ -2,6 +2,7 @@
 From Coq Require Import String ZArith List Bool.
 From FcpV Require Import Schema.Types Layout.Packed Layout.PackedProofs.
 From FcpV Require Import Py.BufferLib Layout.EncoderLib Layout.EncoderProofs Layout.EncoderFailProofs.
+From FcpV Require Import Verifier.Checks Py.BufferLib Py.DispatchLib Verifier.ChecksLib Layout.Packed Layout.EncoderLib Specs.SpecsLib Specs.SpecsProofs.
 Import ListNotations.
 Open Scope Z_scope.
 
@@ -143,3 +144,23 @@ Theorem source_generate_agrees_with_model :
     end.
 Proof. exact translated_generate_agrees. Qed.
 Print Assumptions source_generate_agrees_with_model.
+
+(* ---- what the translated PackedEncoder calls outside its own class (FcpV2.get_type, Impl.get_signal, Enum.get_packed_size,
+   PackedEncoderContext.with_unroll_arrays: translated on every run, gen/PySpecs.v) is what its run-time library assumes ---- *)
+Theorem source_encoder_lookups_are_the_library :
+  (forall t ty, is_StructType ty || is_EnumType ty = true ->
+     match py_get_type (schema_of t) ty, PySpecs.py_FcpV2_get_type t ty with
+     | POk (PTStruct s), POk (Some (TNStruct s')) => s = s'
+     | POk (PTEnum e), POk (Some (TNEnum e')) => e = e'
+     | PRaise _, POk None => True
+     | _, _ => False
+     end) /\
+  (forall im name, PySpecs.py_Impl_get_signal im name = POk (find (fun sb => String.eqb (sbname sb) name) (isignals im)) /\
+     sig_fields im name = match find (fun sb => String.eqb (sbname sb) name) (isignals im) with Some sb => sbfields sb | None => [] end) /\
+  (forall e, Forall (fun v => 0 <= v) (map snd (evals e)) -> PySpecs.py_Enum_get_packed_size e = POk (enum_packed_size e)) /\
+  (forall c b, PySpecs.py_PackedEncoderContext_with_unroll_arrays c b = POk (c, {| unroll_arrays := b |})).
+Proof.
+  repeat split; intros.
+  - now apply get_type_is_library. - apply get_signal_is_library. - now apply get_packed_size_is_model.
+Qed.
+Print Assumptions source_encoder_lookups_are_the_library.
